@@ -328,12 +328,20 @@ O(id='oer_primitive_roundtrip', props=['C01', 'C02', 'C07'], kind='bounded', ent
   unwind=18, bound='contents of at most 6 octets; callback may fail at any call', min_props=50, **OP)
 
 # ---------------------------------------------------------------- SET OF over UPER: element count / bomb guard
-O(id='SET_OF_decode_uper.n201', props=['C01', 'C03', 'C15'], kind='bounded', entry='h_SET_OF_decode_uper', harness='harness/h_setof_uper.c',
-  units=[SK + 'constr_SET_OF.c', SK + 'asn_SET_OF.c'], functions=['SET_OF_decode_uper', 'asn_set_add'],
-  fp_restrict=[(r'uper_decoder\)$', ['stub_elem_uper']), (r'free_struct\)$', ['stub_free'])],
-  unwind=203, cbmc=['--unwindset', 'asn_get_few_bits:4', '--no-malloc-may-fail'],
-  bound='one list of exactly 201 elements, element width 0..8 bits (stub element decoder that, like every primitive UPER decoder, reports consumed = 0)',
-  min_props=50, timeout=1500)
+for _w in (0, 1, 8):
+    O(id='SET_OF_decode_uper.n201.w%d' % _w, props=['C01', 'C03', 'C15'], kind='bounded', entry='h_SET_OF_decode_uper', harness='harness/h_setof_uper.c',
+      units=[SK + 'constr_SET_OF.c', SK + 'asn_SET_OF.c'], functions=['SET_OF_decode_uper', 'asn_set_add'], defines=['VF_W=%d' % _w],
+      fp_restrict=[(r'uper_decoder\)$', ['stub_elem_uper']), (r'free_struct\)$', ['stub_free'])],
+      unwind=203, cbmc=['--unwindset', 'asn_get_few_bits:4', '--no-malloc-may-fail'],
+      bound='one list of exactly 201 elements of %d bits each (stub element decoder that, like most primitive UPER decoders, reports consumed = 0)' % _w,
+      min_props=50, timeout=1500)
+
+# ---------------------------------------------------------------- OER CHOICE tag
+OT = dict(harness='harness/h_oer_tag.c', units=[SK + 'constr_CHOICE_oer.c'], fp_restrict=[(r'::cb$', ['vf_cb'])])
+O(id='oer_put_tag', props=['C01', 'C02', 'C07'], kind='width', entry='h_oer_put_tag', functions=['oer_put_tag', 'oer_fetch_tag'], proves=['oer_put_tag'],
+  unwind=14, bound='all tags with numbers below 2^30; loops bounded by 5 octets; callback may fail', min_props=30, **OT)
+O(id='oer_fetch_tag.b10', props=['C03', 'C04', 'C05'], kind='bounded', entry='h_oer_fetch_tag', functions=['oer_fetch_tag'],
+  unwind=12, bound='every input of at most 10 octets and every cut point', min_props=20, **OT)
 
 UNVERIFIED = {
  'C07': ['asn_encode_to_buffer / asn_encode_to_new_buffer / uper_encode_to_buffer / uper_encode_to_new_buffer with a UPER type encoder: obligations exist (tier experimental) but do not discharge (symbolic-length memcpy of the 32-octet bit scratch space runs out of memory); asn_encode with UPER is covered',
